@@ -7,10 +7,10 @@ from vlib.runner import PropCheck, Case
 
 class PROP(PropCheck):
     id = "C09"
-    theorems = []
+    theorems = ["C09_parse_wf", "C09_misplaced_rejected", "C09_rejection_has_diagnostic", "C09_accepts_example"]
     coq_imports = ["Token", "LexImpl", "Ast", "ParseImpl", "Obs"]
     model_targets = ["theories/Obs.vo"]
-    prop_targets = []
+    prop_targets = ["theories/Props/C09.vo"]
     harness_mode = "parse"
     trusted_base = [
         "Coq 8.16.1 kernel and bytecode VM (vm_compute evaluates scanner + parser models on every case)",
